@@ -105,6 +105,9 @@ func init() {
 		"strconv.Atoi":                    ext۰strconv۰Atoi,
 		"strconv.Itoa":                    ext۰strconv۰Itoa,
 		"strconv.FormatFloat":             ext۰strconv۰FormatFloat,
+		"strconv.FormatInt":               ext۰strconv۰FormatInt,
+		"strconv.FormatUint":              ext۰strconv۰FormatUint,
+		"strconv.FormatBool":              ext۰strconv۰FormatBool,
 		"strings.Count":                   ext۰strings۰Count,
 		"strings.EqualFold":               ext۰strings۰EqualFold,
 		"strings.Index":                   ext۰strings۰Index,
@@ -247,9 +250,33 @@ func ext۰strconv۰Atoi(fr *frame, args []value) value {
 	return tuple{i, iface{}}
 }
 func ext۰strconv۰Itoa(fr *frame, args []value) value {
+	if _, ok := args[0].(int); !ok && isSymScalar(args[0]) {
+		return fmt.Sprint(toNative(args[0])) // the token fmt's %v gives for a symbolic value (an approximation, recorded)
+	}
 	return strconv.Itoa(args[0].(int))
 }
+func ext۰strconv۰FormatInt(fr *frame, args []value) value {
+	if _, ok := args[0].(int64); !ok && isSymScalar(args[0]) {
+		return fmt.Sprint(toNative(args[0]))
+	}
+	return strconv.FormatInt(args[0].(int64), args[1].(int))
+}
+func ext۰strconv۰FormatUint(fr *frame, args []value) value {
+	if _, ok := args[0].(uint64); !ok && isSymScalar(args[0]) {
+		return fmt.Sprint(toNative(args[0]))
+	}
+	return strconv.FormatUint(args[0].(uint64), args[1].(int))
+}
+func ext۰strconv۰FormatBool(fr *frame, args []value) value {
+	if _, ok := args[0].(bool); !ok && isSymScalar(args[0]) {
+		return fmt.Sprint(toNative(args[0]))
+	}
+	return strconv.FormatBool(args[0].(bool))
+}
 func ext۰strconv۰FormatFloat(fr *frame, args []value) value {
+	if _, ok := args[0].(float64); !ok && isSymScalar(args[0]) {
+		return fmt.Sprint(toNative(args[0])) // as above
+	}
 	return strconv.FormatFloat(args[0].(float64), args[1].(byte), args[2].(int), args[3].(int))
 }
 
